@@ -46,6 +46,9 @@ RULES = {
         (r"increment: (Sub->Add|Add->Sub) \| info = ", "outside", "the information H belongs to the uncertainty, which C05 recomputes (C05_recompute_std_err); C02 speaks of log Z, volumes and weights"),
         (r"logsubexp: Lt->LtE", "equivalent", "x = y would need two equal consecutive log-volumes; they decrease strictly for every representable nlive"),
     ],
+    "C05": [
+        (r"effective_n_posterior_samples", "outside", "the effective sample size is C16's clause (its check exercises the state classes since round 3); C05 recomputes evidence, uncertainty and weights"),
+    ],
     "C10": [
         (r"check_vectorised_function", "outside", "how vectorisation is detected; whichever branch is then taken returns the pointwise values"),
     ],
